@@ -127,7 +127,12 @@ def _queue(db, chk, m, TR):
     concats = [e for e in ev if e["kind"] == "concat"]
     sorts = [e for e in ev if e["kind"] == "sort"]
     # the sweep sort is the (first) sort the cumulative sum runs over; any later sort must keep the order inside a stream (stable, by the stream alone)
-    later_sorts = sorts[1:]
+    # (sorts in front of the sweep sort only matter as the order a STABLE sweep sort falls back to at equal keys: they are read off its prev_order)
+    k_s = len(sorts)
+    while k_s > 1 and list(sorts[k_s - 1]["by"]) == ["stream"]:
+        k_s -= 1
+    i_sweep = k_s - 1
+    later_sorts = sorts[k_s:]
     regroup_ok = all(e["sort_kind"] in ("stable", "mergesort") and list(e["by"]) == ["stream"] for e in later_sorts)
     unstable = [e for e in later_sorts if e["sort_kind"] not in ("stable", "mergesort") and list(e["by"]) == ["stream"]]
     if unstable:
@@ -168,7 +173,7 @@ def _queue(db, chk, m, TR):
            accepted="correlation.isin(launches.correlation)", why="an activity without a counted launch would drive the series negative")
     # ---- R2 tie order
     rule2 = "C14.R2-tie-order"
-    S = sorts[0]
+    S = sorts[i_sweep]
     by, asc, kind = S["by"], S["ascending"], S["sort_kind"]
     asc_l = list(asc) if isinstance(asc, (list, tuple)) else [asc] * len(by)
     cparts = [k for k, _ in concats[0]["parts"]]
@@ -178,7 +183,7 @@ def _queue(db, chk, m, TR):
     stable_concat = kind in ("stable", "mergesort") and first_is_launch and S["prev_order"] is None
     chk.ob(rule2, "sweep sorted by ts ascending first", key_ok, where, found={"by": by, "ascending": asc_l}, accepted="by=['ts', ...] ascending")
     chk.ob(rule2, "equal timestamps: launch (+1) ordered before activity (-1)", key_ok and (secondary or (len(by) == 1 and stable_concat)), where,
-           found={"by": by, "ascending": asc_l, "kind": kind, "concat_first_is_launch": first_is_launch},
+           found={"by": by, "ascending": asc_l, "kind": kind, "concat_first_is_launch": first_is_launch, "order before the sweep sort (ties fall back to it)": T.show_order(S["prev_order"])[:120] if S["prev_order"] is not None else "concat order"},
            accepted="secondary key 'queue' descending, or a stable sort by ts over concat([launches, activities])",
            why="every row is reported, so with the activity first a kernel starting at its launch's timestamp shows queue length -1 (F2)")
     # cumsum context: per stream, in the sweep order
